@@ -41,6 +41,14 @@ def ids(it):
 
 
 def check_coalition(ctx, n, m) -> None:
+    """Guard: an exception raised by the library on a legal coalition is a violation, not a harness error."""
+    try:
+        _check_coalition_impl(ctx, n, m)
+    except Exception as exc:
+        ctx.violation("operation-raised", f"check_coalition(n, m = {(n, m,)}): {type(exc).__name__}: {exc}", {"kind": "coalition", "n": n, "mask": m})
+
+
+def _check_coalition_impl(ctx, n, m) -> None:
     c = Coalition(m)
     s = fset(m)
     full = (1 << n) - 1
@@ -85,6 +93,14 @@ def check_coalition(ctx, n, m) -> None:
 
 
 def check_pair(ctx, n, a, b) -> None:
+    """Guard: an exception raised by the library on a legal coalition is a violation, not a harness error."""
+    try:
+        _check_pair_impl(ctx, n, a, b)
+    except Exception as exc:
+        ctx.violation("operation-raised", f"check_pair(n, a, b = {(n, a, b,)}): {type(exc).__name__}: {exc}", {"kind": "pair", "n": n, "a": a, "b": b})
+
+
+def _check_pair_impl(ctx, n, a, b) -> None:
     A, B = Coalition(a), Coalition(b)
     sa, sb = fset(a), fset(b)
     case = {"kind": "pair", "n": n, "a": a, "b": b}
@@ -108,6 +124,14 @@ def check_pair(ctx, n, a, b) -> None:
 
 
 def check_large_one(ctx, n: int, a: int, b: int, p: int) -> None:
+    """Guard: an exception raised by the library on a legal coalition is a violation, not a harness error."""
+    try:
+        _check_large_one_impl(ctx, n, a, b, p)
+    except Exception as exc:
+        ctx.violation("operation-raised", f"check_large_one(n, a, b, p = {(n, a, b, p,)}): {type(exc).__name__}: {exc}", {"kind": "large", "n": n, "a": a, "b": b, "p": p})
+
+
+def _check_large_one_impl(ctx, n: int, a: int, b: int, p: int) -> None:
     """One pair of coalitions over up to 30 players (ids beyond 16 bits): per-coalition operations only."""
     A, B = Coalition(a), Coalition(b)
     sa, sb = fset(a), fset(b)
@@ -143,6 +167,14 @@ def check_large_ids(ctx, rng, count: int) -> None:
 
 
 def check_collections(ctx, n) -> None:
+    """Guard: an exception raised by the library on a legal coalition is a violation, not a harness error."""
+    try:
+        _check_collections_impl(ctx, n)
+    except Exception as exc:
+        ctx.violation("operation-raised", f"check_collections(n = {(n,)}): {type(exc).__name__}: {exc}", {"kind": "collections", "n": n})
+
+
+def _check_collections_impl(ctx, n) -> None:
     case = {"kind": "collections", "n": n}
     if ids(all_coalitions(n)) != list(range(1 << n)) or [int(x) for x in cid.get_all_coalitions(n)] != list(range(1 << n)):
         ctx.violation("all-coalitions-wrong", f"all_coalitions({n})", case)
